@@ -91,4 +91,195 @@ theorem foldl_max_isMaxOf [LinearOrder α] (l : List α) (v0 : α) :
         · exact Or.inr (by rw [List.foldl_cons, h, hm]; simp)
       · exact Or.inr (List.mem_cons_of_mem _ h)
 
+
+/-! ### a canonical matrix whose `colptr` starts at 0 is rebuilt by `ofCols` from its columns -/
+
+theorem col_length (M : Csc α) (hM : Canonical M) (j : Nat) (hj : j < M.n) :
+    (M.col j).length = M.colptr.getD (j + 1) 0 - M.colptr.getD j 0 := by
+  have hs := hM.colptr_size
+  have hmono := (noBadAdjacent_iff_getElem _ _).mp hM.colptr_mono
+  have hlast := hM.colptr_last
+  -- every pointer is ≤ the last one
+  have hle : ∀ k, k ≤ M.n → M.colptr.getD k 0 ≤ M.colptr.getD M.n 0 := by
+    intro k hk
+    induction hd : M.n - k generalizing k with
+    | zero => have : k = M.n := by omega
+              rw [this]
+    | succ d ih =>
+      have h1 := hmono k (by simp [hs]; omega)
+      rw [toList_getElem_eq_getD _ k (by omega), toList_getElem_eq_getD _ (k + 1) (by omega)] at h1
+      have := ih (k + 1) (by omega) (by omega)
+      omega
+  have h1 := hle (j + 1) (by omega)
+  unfold col
+  simp only [List.length_zip, Array.toList_extract, List.extract_eq_drop_take', List.length_drop,
+    List.length_take, Array.length_toList, ← hM.len_eq]
+  omega
+
+theorem ofCols_cols_self (M : Csc α) (hM : Canonical M) (h0 : M.colptr.getD 0 0 = 0) :
+    ofCols M.m M.n M.cols = M := by
+  have hs := hM.colptr_size
+  have hmono := (noBadAdjacent_iff_getElem _ _).mp hM.colptr_mono
+  have hclen : M.cols.length = M.n := by simp [cols]
+  have hlens : ∀ k, k ≤ M.n → ((M.cols.map List.length).take k).sum = M.colptr.getD k 0 := by
+    intro k hk
+    induction k with
+    | zero => simp [h0]
+    | succ k ih =>
+      have hk' : k < (M.cols.map List.length).length := by simp [hclen]; omega
+      rw [List.take_succ_eq_append_getElem hk', List.sum_append, ih (by omega)]
+      simp only [List.getElem_map, cols, List.getElem_range, List.sum_cons, List.sum_nil, Nat.add_zero]
+      rw [col_length M hM k (by omega)]
+      have h1 := hmono k (by simp [hs]; omega)
+      rw [toList_getElem_eq_getD _ k (by omega), toList_getElem_eq_getD _ (k + 1) (by omega)] at h1
+      omega
+  have hent := entries_eq_flatten_cols M hM h0
+  have hcp : (ofCols M.m M.n M.cols).colptr = M.colptr := by
+    apply Array.ext
+    · rw [ofCols_colptr, (prefixSums_spec _).1]; simp [hclen, hs]
+    · intro k h1 h2
+      have hk : k ≤ M.n := by omega
+      have e1 := ofCols_colptr_getD M.m M.n M.cols k (by omega)
+      rw [hlens k hk, Array.getD_eq_getD_getElem?, Array.getElem?_eq_getElem h1,
+        Array.getD_eq_getD_getElem?, Array.getElem?_eq_getElem h2] at e1
+      simpa using e1
+  have hrv : (ofCols M.m M.n M.cols).rowval = M.rowval := by
+    rw [ofCols_rowval, ← hent]
+    apply Array.ext'
+    simp only [List.toList_toArray, entries]
+    rw [List.map_fst_zip]
+    simp [hM.len_eq]
+  have hnz : (ofCols M.m M.n M.cols).nzval = M.nzval := by
+    rw [ofCols_nzval, ← hent]
+    apply Array.ext'
+    simp only [List.toList_toArray, entries]
+    rw [List.map_snd_zip]
+    simp [hM.len_eq]
+  have hext : ∀ A B : Csc α, A.m = B.m → A.n = B.n → A.colptr = B.colptr →
+      A.rowval = B.rowval → A.nzval = B.nzval → A = B := by
+    intro A B h1 h2 h3 h4 h5
+    cases A; cases B; simp_all
+  exact hext _ _ rfl rfl hcp hrv hnz
+
+
+/-! ### partition point -/
+
+theorem takeWhile_length_spec {β : Type} (l : List β) (p : β → Bool) :
+    (∀ i (h : i < l.length), i < (l.takeWhile p).length → p l[i] = true) ∧
+    (∀ h : (l.takeWhile p).length < l.length, p l[(l.takeWhile p).length] = false) := by
+  induction l with
+  | nil => simp
+  | cons a t ih =>
+    by_cases ha : p a = true
+    · simp only [List.takeWhile_cons, ha, ↓reduceIte, List.length_cons]
+      refine ⟨?_, ?_⟩
+      · intro i h hi
+        cases i with
+        | zero => simpa using ha
+        | succ i => simpa using ih.1 i (by simpa using h) (by omega)
+      · intro h
+        simpa using ih.2 (by simpa using h)
+    · have ha' : p a = false := by simpa using ha
+      simp only [List.takeWhile_cons, ha', Bool.false_eq_true, ↓reduceIte, List.length_nil]
+      exact ⟨fun i _ hi => by omega, fun _ => by simpa using ha'⟩
+
+
+/-! ### from rows -/
+
+section fromRows
+variable [Zero α] [DecidableEq α]
+
+theorem fromRowsEntry_eq (c : Nat) (p : Array α × Nat) :
+    fromRowsEntry c p = (p.1[c]?).bind (fun v => if v = 0 then none else some (p.2, v)) := by
+  unfold fromRowsEntry
+  cases h : p.1[c]? with
+  | none => rfl
+  | some v => by_cases hv : v = 0 <;> simp [hv]
+
+/-- column `c` read off a list of rows numbered from `k` -/
+theorem fromRows_col_spec (l : List (Array α)) (c k : Nat) :
+    (((l.zipIdx k).filterMap (fromRowsEntry c)).map (·.1)).Pairwise (· < ·) ∧
+    (∀ e ∈ (l.zipIdx k).filterMap (fromRowsEntry c), k ≤ e.1 ∧ e.1 < k + l.length ∧ e.2 ≠ 0) ∧
+    (∀ i (hi : i < l.length) v, l[i][c]? = some v →
+      colVals ((l.zipIdx k).filterMap (fromRowsEntry c)) (k + i) = if v = 0 then [] else [v]) := by
+  induction l generalizing k with
+  | nil => simp
+  | cons a t ih =>
+    obtain ⟨ih1, ih2, ih3⟩ := ih (k + 1)
+    have hhead : ∀ e, fromRowsEntry c (a, k) = some e → e.1 = k ∧ e.2 ≠ 0 ∧ a[c]? = some e.2 := by
+      intro e he
+      rw [fromRowsEntry_eq] at he
+      cases h : a[c]? with
+      | none => simp [h] at he
+      | some v =>
+        by_cases hv : v = 0
+        · simp [h, hv] at he
+        · simp [h, hv] at he
+          subst he
+          exact ⟨rfl, hv, rfl⟩
+    simp only [List.zipIdx_cons, List.filterMap_cons]
+    refine ⟨?_, ?_, ?_⟩
+    · cases h : fromRowsEntry c (a, k) with
+      | none => exact ih1
+      | some e =>
+        simp only [List.map_cons, List.pairwise_cons]
+        refine ⟨?_, ih1⟩
+        intro r hr
+        simp only [List.mem_map] at hr
+        obtain ⟨e', he', rfl⟩ := hr
+        have := (ih2 e' he').1
+        have := (hhead e h).1
+        omega
+    · intro e he
+      cases h : fromRowsEntry c (a, k) with
+      | none =>
+        rw [h] at he
+        have := ih2 e he
+        simp only [List.length_cons]
+        exact ⟨by omega, by omega, this.2.2⟩
+      | some e0 =>
+        rw [h] at he
+        rcases List.mem_cons.mp he with rfl | he
+        · have := hhead e h
+          simp only [List.length_cons]
+          exact ⟨by omega, by omega, this.2.1⟩
+        · have := ih2 e he
+          simp only [List.length_cons]
+          exact ⟨by omega, by omega, this.2.2⟩
+    · intro i hi v hv
+      cases i with
+      | zero =>
+        simp only [List.getElem_cons_zero] at hv
+        have htail : colVals ((t.zipIdx (k + 1)).filterMap (fromRowsEntry c)) (k + 0) = [] := by
+          apply colVals_eq_nil_of_not_mem
+          intro e he
+          have := (ih2 e he).1
+          omega
+        cases h : fromRowsEntry c (a, k) with
+        | none =>
+          rw [htail]
+          rw [fromRowsEntry_eq] at h
+          simp only [hv, Option.bind_some] at h
+          by_cases hv0 : v = 0
+          · simp [hv0]
+          · simp [hv0] at h
+        | some e =>
+          obtain ⟨h1, h2, h3⟩ := hhead e h
+          have : e.2 = v := by rw [hv] at h3; exact (Option.some.inj h3).symm
+          rw [colVals_cons, htail]
+          simp [h1, ← this, h2]
+      | succ i =>
+        simp only [List.getElem_cons_succ] at hv
+        have := ih3 i (by simpa using hi) v hv
+        have e1 : k + (i + 1) = k + 1 + i := by omega
+        rw [e1]
+        cases h : fromRowsEntry c (a, k) with
+        | none => exact this
+        | some e =>
+          have := (hhead e h).1
+          rw [colVals_cons, if_neg (by omega)]
+          assumption
+
+end fromRows
+
 end Clarabel.Csc
